@@ -8,14 +8,27 @@ records every command whose key / value / next-key buffer is shorter than
 what the kernel would read or write (and never touches memory outside).
 The property holds iff that record stays empty.
 
-Enumerated: hash-map variables of every format (get / set sequences up to
-length 3, plus the default initialisation done by load()), array-map
-variables (mmap path; declaration sets as in C08), per-CPU `read()` with
-n_possible in {1, 2, ncpu, ncpu+3} (the last with only ncpu CPUs online),
-and Dict operations (__setitem__ __getitem__ pop __delitem__ __iter__
-values() items() popitem() clear() get() setdefault() `in`; breadth-first over sequences up to length 3, all reachable map
-contents) on the Dict declarations of C09.
+Enumerated: hash-map variables of every format, including formats with
+their own byte order (get / set sequences up to length 3, plus the default
+initialisation done by load()), array-map variables (mmap path; declaration
+sets as in C08), per-CPU `read()` with n_possible in {1, 2, ncpu, ncpu+3}
+(the last with only ncpu CPUs online), and Dict operations (__setitem__
+__getitem__ pop __delitem__ __iter__ values() items() popitem() clear()
+get() setdefault() `in`, and the collect-then-use iterations of C09;
+breadth-first over sequences up to length 3, all reachable map contents) on
+the Dict declarations of C09.
+
+Histories of two programs in one process (see VARIANTS): a second program of
+any kind, or a second instance of the first one's class, is created while the
+first is alive, after it was close()d, or after it was garbage-collected; the
+whole repertoire of user-space operations of both is issued again after every
+step.  The simulated kernel hands out real descriptor numbers, lowest free
+first, so a descriptor number the library keeps after the descriptor was
+closed denotes whatever map was created next, and the monitor sees the
+buffers sized for the old map.  An operation that fails cleanly (EBADF ...)
+is no overrun.
 """
+import gc
 import itertools
 import struct
 
@@ -27,13 +40,19 @@ from ebpfcat.hashmap import HashMap
 PROP = "C10"
 LEVEL = "model_checking"
 RULE = ("cases = (declaration, operation sequence): hash-map variables of "
-        "formats B H I Q b h i q x (1-2 variables, all get/set sequences of "
-        "length <= 3), hash maps with 255 / 256 / 257 (thorough: also 254, "
+        "formats B H I Q b h i q x >H !I >b <H >Q !h <q >i (1-2 variables, "
+        "all get/set sequences of length <= 3), hash maps with 255 / 256 / 257 (thorough: also 254, "
         "300, 513) variables (get / set of the first, 255th, 256th, 257th, "
         "last; single operations and all set-then-get pairs), array and per-CPU declaration sets of <= 2 variables "
         "from C08's alphabet (per-CPU x 4 possible/online CPU settings), "
         "Dict declarations of C09 with all Python operation sequences of "
-        "length <= 3 explored breadth-first over map contents; a case is "
+        "length <= 3 explored breadth-first over map contents; histories "
+        "(first program, second program or further instances of the first's "
+        "class, one of six orders of load / use / close() / create / "
+        "garbage-collect, plus three instances of one class) over 8 (thorough: 12) program kinds - hash-map "
+        "variables, array, per-CPU, Dict, each with small and large "
+        "keys / values - with every user-space operation of every program "
+        "re-issued after every step; a case is "
         "non-trivial when at least one map system call with a user buffer "
         "was issued and monitored; distinct = distinct (declaration, "
         "sequence / (state, operation))")
@@ -41,6 +60,8 @@ RULE = ("cases = (declaration, operation sequence): hash-map variables of "
 KF_HASHGET = "C10-hashvar-get-short-buffer"
 KF_PERCPU = "C10-percpu-read-online-cpus"
 HV_FORMATS = ["B", "H", "I", "Q", "b", "h", "i", "q", "x"]
+# formats with their own byte order
+HV_XFORMATS = [">H", "!I", ">b", "<H", ">Q", "!h", "<q", ">i"]
 
 
 def hv_set_values(fmt):
@@ -323,10 +344,332 @@ def run_manyvars(item, res):
             sk.close_all()
 
 
+# ------------------------------------------------- histories of two programs
+# Who exists when, in one process.  After every step the whole repertoire of
+# user-space operations of every program alive (or closed: EBPF.close() only
+# gives up the program's descriptor, XDP.run() and register_sync_group() call
+# it right after attaching and the maps stay in use) is issued again:
+#   alive           P1, P2 loaded one after the other
+#   close-then      P1 loaded, used, close()d; then P2 is created (descriptor
+#                   numbers are recycled lowest first, as by the real kernel)
+#   then-close      P1, P2 loaded, then P1 close()d
+#   sibling         P2 is a second instance of P1's program class
+#   siblings3       a second and a third instance of P1's program class
+#   sibling-closed  the same, P1 close()d before P2 is created
+#   reborn          P1 used, close()d and garbage-collected, then a second
+#                   instance of its class
+VARIANTS = ("alive", "close-then", "then-close", "sibling", "siblings3",
+            "sibling-closed", "reborn")
+
+
+class _Be:
+    """what c09.DictCase wants of a backend"""
+    def __init__(self, sk):
+        self.sk = sk
+
+
+def _pair(fmt, place="base"):
+    return (fmt, place) if (fmt, place) in c08.PAIRS else None
+
+
+def history_specs(ctx):
+    """program kinds of the histories: small and large keys / values of
+    every map type the library offers"""
+    specs = [("hv", ("H", "q")), ("hv", (">I",)),
+             ("dict", dict(key=("B",), value=("B",), size=31, lru=False)),
+             ("dict", dict(key=("Q", "Q", "Q"), value=("q", "Q", "Q"),
+                           size=31, lru=True))]
+    small = _pair("B") or c08.PAIRS[0]
+    big = _pair("64I") or _pair("5I") or c08.PAIRS[-1]
+    two = tuple(p for p in (_pair("Q"), _pair("H", "derived")) if p)
+    for kind in ("arr", "pcpu"):
+        specs.append((kind, (small,)))
+        specs.append((kind, (big,)))
+        if not ctx.quick and len(two) == 2:
+            specs.append((kind, two))
+    if not ctx.quick:
+        specs += [("hv", ("b", "!h", "Q")),
+                  ("dict", dict(key=(">H", "B"), value=("!q",), size=2,
+                                lru=False))]
+    return specs
+
+
+def spec_json(spec):
+    if spec is None:
+        return None
+    kind, p = spec
+    if kind == "dict":
+        return [kind, dict(key=list(p["key"]), value=list(p["value"]),
+                           size=p["size"], lru=p["lru"])]
+    return [kind, [list(x) if isinstance(x, tuple) else x for x in p]]
+
+
+def spec_from_json(j):
+    if j is None:
+        return None
+    kind, p = j
+    if kind == "dict":
+        return kind, dict(key=tuple(p["key"]), value=tuple(p["value"]),
+                          size=p["size"], lru=p["lru"])
+    return kind, tuple(tuple(x) if isinstance(x, list) else x for x in p)
+
+
+class Prog:
+    """one loaded program of one kind and the user-space operations on its
+    maps; sibling_of: one more instance of that Prog's program class"""
+
+    def __init__(self, spec, sk, sibling_of=None):
+        self.kind, p = self.spec = spec
+        self.sk = sk
+        before = set(sk.fds)
+        if self.kind == "hv":
+            if sibling_of is None:
+                M = HashMap()
+                attrs = {"hmap": M}
+                for j, f in enumerate(p):
+                    attrs[f"v{j}"] = M.globalVar(f, default=j)
+                b = c09.dsl.Builder(attrs, n_in=1, n_out=1, pv_area=c09.HDR)
+            else:
+                b = c09.SiblingBuilder(sibling_of.b, sibling_of.preamble)
+            self.preamble = c09.preamble_of(b.e)
+            b.finish(2)
+            b.e.load()
+            self.b, self.e = b, b.e
+        elif self.kind == "dict":
+            self.case = c09.DictCase(
+                p, _Be(sk), with_program=False,
+                sibling_of=sibling_of.case if sibling_of else None)
+            self.b, self.e = self.case.b, self.case.e
+        else:
+            if sibling_of is None:
+                case = self.case = c08.Case(p, percpu=self.kind == "pcpu")
+                self.preamble = c09.preamble_of(case.e)
+                case.b.finish(2)
+                case.e.load()
+                self.b, self.e = case.b, case.e
+                self.names = [(s.name, s.fmt) for s in case.slots
+                              if s.owner is case.e]
+                if len(self.names) != len(case.slots):
+                    raise core.Internal("history layouts have no subprograms")
+            else:
+                b = c09.SiblingBuilder(sibling_of.b, sibling_of.preamble)
+                self.preamble = sibling_of.preamble
+                b.finish(2)
+                b.e.load()
+                self.b, self.e = b, b.e
+                self.names = sibling_of.names
+        self.maps = [sk.fds[fd][1] for fd in sorted(set(sk.fds) - before)
+                     if sk.fds[fd][0] == "map"]
+
+    def close(self):
+        self.e.close()
+
+    def drop(self):
+        """forget the instance (the class stays)"""
+        self.e = self.b.e = None
+        if self.kind == "dict":
+            self.case.e = None
+        elif self.kind != "hv" and getattr(self, "case", None) is not None:
+            self.case.e = None
+            self.case = None
+        gc.collect()
+
+    def ops(self, seed=0):
+        """-> [(label, callable)]: every user-space operation on the maps"""
+        e, out = self.e, []
+        if self.kind == "hv":
+            for j, f in enumerate(self.spec[1]):
+                out.append((f"get {f}", lambda j=j: getattr(e, f"v{j}")))
+                for v in hv_set_values(f):
+                    out.append((f"set {f}",
+                                lambda j=j, v=v: setattr(e, f"v{j}", v)))
+                out.append((f"get {f}", lambda j=j: getattr(e, f"v{j}")))
+        elif self.kind == "dict":
+            case = self.case
+            allops = case.ops(python_only=True)
+            order = [o for o in allops if o[0] == "pset"] + \
+                [o for o in allops if case.readonly(o)] + \
+                [o for o in allops if o[0] != "pset" and not case.readonly(o)]
+            order += [("pset", 0, 0), ("pset", 1, 1), ("plist",)]
+            for op in order:
+                out.append((op[0], lambda op=op: self._dict_op(op)))
+        elif self.kind == "arr":
+            for i, (name, f) in enumerate(self.names):
+                v, _ = c08.py_value(f, i, 0, seed)
+                out.append((f"set {f}", lambda n=name, v=v: setattr(e, n, v)))
+                out.append((f"get {f}", lambda n=name: getattr(e, n)))
+        else:
+            def read():
+                e.amap.read()
+                for name, f in self.names:
+                    var = getattr(e, name)
+                    for c in range(len(var)):
+                        var[c]
+            out += [("read", read), ("read", read)]
+        return out
+
+    def _dict_op(self, op):
+        r = self.case.apply(op)
+        if r[0] == "exc":
+            raise _Refused(r[1])
+
+
+class _Refused(Exception):
+    """the library answered a Dict operation with an exception"""
+
+
+def run_history(item, res):
+    s1, s2, variant, (npos, non) = item
+    res.count("evaluations")
+    res.count("histories")
+    sk = simkernel.SimKernel(n_possible=npos, n_online=non)
+    sk.overrun_limit = 200
+    mon = Monitor(sk, res)
+    cj = dict(kind="history", first=spec_json(s1), second=spec_json(s2),
+              variant=variant, n_possible=npos, n_online=non)
+    phase = [0]
+
+    def judge(what, who, prog=None, opkind=None):
+        model = None
+        if prog is not None and prog.kind == "pcpu" and npos > non and \
+                what == "read" and prog.maps:
+            size = simkernel.round8(prog.maps[0].value_size)
+            model = (KF_PERCPU, dict(cmd="MAP_LOOKUP_ELEM", need=size * npos,
+                                     have=size * non, what="value"))
+        return mon.judge(dict(cj, opkind=opkind or what, who=who,
+                              phase=phase[0]), mon.new(), model,
+                         note=f"{what} on the {who} program "
+                         f"({variant}, step {phase[0]})")
+
+    def make(spec, who, sibling_of=None):
+        phase[0] += 1
+        try:
+            p = Prog(spec, sk, sibling_of)
+        except Exception as ex:
+            if isinstance(ex, (simkernel.SimTrap, core.Internal)):
+                raise
+            res.outcomes.add(("history-rejected", spec[0], who,
+                              type(ex).__name__))
+            p = None
+        ok = judge("creation and load()", who, opkind="load")
+        res.outcomes.add(("history-load", spec[0], who, p is not None, ok))
+        return p
+
+    def use(prog, who):
+        phase[0] += 1
+        for label, fn in prog.ops():
+            try:
+                fn()
+                out = "ok"
+            except Exception as ex:
+                if isinstance(ex, (simkernel.SimTrap, core.Internal)):
+                    raise
+                out = str(ex) if isinstance(ex, _Refused) \
+                    else type(ex).__name__
+            ok = judge(label, who, prog, opkind=label.split()[0])
+            res.outcomes.add(("history", prog.kind, who, label.split()[0],
+                              out, ok))
+
+    def close(prog):
+        phase[0] += 1
+        try:
+            prog.close()
+        except Exception as ex:
+            if isinstance(ex, (simkernel.SimTrap, core.Internal)):
+                raise
+            res.outcomes.add(("history-close", prog.kind, type(ex).__name__))
+
+    try:
+        with sk.installed():
+            p1 = make(s1, "first")
+            if p1 is None:
+                return
+            if variant == "alive":
+                use(p1, "first")
+                p2 = make(s2, "second")
+                if p2:
+                    use(p2, "second")
+                use(p1, "first")
+            elif variant == "close-then":
+                use(p1, "first")
+                close(p1)
+                p2 = make(s2, "second")
+                use(p1, "closed first")
+                if p2:
+                    use(p2, "second")
+                use(p1, "closed first")
+            elif variant == "then-close":
+                p2 = make(s2, "second")
+                close(p1)
+                use(p1, "closed first")
+                if p2:
+                    use(p2, "second")
+                    close(p2)
+                    use(p2, "closed second")
+                use(p1, "closed first")
+            elif variant == "sibling":
+                p2 = make(s1, "second instance", sibling_of=p1)
+                use(p1, "first")
+                if p2:
+                    use(p2, "second instance")
+                use(p1, "first")
+            elif variant == "siblings3":
+                p2 = make(s1, "second instance", sibling_of=p1)
+                p3 = make(s1, "third instance", sibling_of=p1)
+                for p, who in ((p1, "first"), (p2, "second instance"),
+                               (p3, "third instance"), (p1, "first"),
+                               (p2, "second instance")):
+                    if p:
+                        use(p, who)
+            elif variant == "sibling-closed":
+                use(p1, "first")
+                close(p1)
+                p2 = make(s1, "second instance", sibling_of=p1)
+                use(p1, "closed first")
+                if p2:
+                    use(p2, "second instance")
+                use(p1, "closed first")
+            elif variant == "reborn":
+                use(p1, "first")
+                close(p1)
+                p1.drop()
+                p2 = make(s1, "second instance", sibling_of=p1)
+                if p2:
+                    use(p2, "second instance")
+            else:
+                raise core.Internal(f"unknown history {variant}")
+            n = sum(1 for c, _ in sk.calls if c in (1, 2, 3, 4, 21))
+            res.count("map_syscalls", n)
+            if n:
+                res.nontrivial.add(core.digest(cj))
+            if variant == "close-then" and s1[0] == "pcpu":
+                res.sample(dict(cj, map_syscalls=n), limit=2)
+    finally:
+        sk.close_all()
+
+
+def history_items(ctx, pcs):
+    specs = history_specs(ctx)
+    cpus = [(a, b) for a, b, _ in pcs]
+    out = []
+    for s1 in specs:
+        for variant in VARIANTS:
+            seconds = [None] if variant in ("sibling", "siblings3",
+                                            "sibling-closed",
+                                            "reborn") else specs
+            for s2 in seconds:
+                percpu = s1[0] == "pcpu" or (s2 and s2[0] == "pcpu")
+                for pc in (cpus if percpu else cpus[:1]):
+                    out.append((s1, s2, variant, pc))
+    return out
+
+
 def work(item, res):
     kind, payload = item
     if kind == "many":
         return run_manyvars(payload, res)
+    if kind == "hist":
+        return run_history(payload, res)
     if kind == "hv":
         run_hashvars(payload, res)
     elif kind == "arr":
@@ -340,6 +683,11 @@ def hv_items(ctx):
     pairs = [(HV_FORMATS[i], HV_FORMATS[(i + s) % 9])
              for i in range(9) for s in ((2,) if ctx.quick else (1, 2, 4))]
     items += [(p, (5, 0)) for p in pairs]
+    items += [((f,), (d,)) for f in HV_XFORMATS for d in (0, 5)]
+    n = len(HV_XFORMATS)
+    xpairs = [(HV_XFORMATS[i], (HV_XFORMATS + HV_FORMATS)[(i + s) % (n + 9)])
+              for i in range(n) for s in ((3,) if ctx.quick else (1, 3, 9))]
+    items += [(p, (5, 0)) for p in xpairs]
     return items
 
 
@@ -356,8 +704,9 @@ def run(ctx):
     for n in (255, 256, 257) if ctx.quick else (254, 255, 256, 257, 300, 513):
         for fmt in ("Q",) if ctx.quick else ("Q", "b"):
             items.append(("many", (n, fmt)))
-    items.sort(key=lambda it: {"arr": 0, "dict": 1, "hv": 2, "many": 1}[
-        it[0]])
+    items += [("hist", h) for h in history_items(ctx, pcs)]
+    items.sort(key=lambda it: {"arr": 0, "dict": 1, "hv": 2, "many": 1,
+                               "hist": 3}[it[0]])
     res = core.pmap(ctx, work, items, chunk=2)
     res.cov.pop("_sigs", None)
     res.cov["states"] = len(res.nontrivial)
@@ -377,7 +726,13 @@ def run(ctx):
         "n_possible CPUs while os.cpu_count() as seen by ebpfcat.arraymap "
         "returns the online number",
         "array-map variables are accessed through the mapped memory only; "
-        "the check confirms that no map system call is issued for them"]
+        "the check confirms that no map system call is issued for them",
+        "reading and writing a program's maps from Python stays legal after "
+        "EBPF.close() (XDP.run() and FastEtherCat.register_sync_group() "
+        "close right after attaching, ebpfcat/examples/percpu.py reads "
+        "afterwards); descriptor numbers are recycled lowest first like the "
+        "real kernel's, a descriptor closed by the library gives EBADF, "
+        "which is a clean failure and no overrun"]
     return res
 
 
@@ -403,6 +758,13 @@ def replay(ctx, rep):
         out = [v for v in res.violations
                if v["case"]["kind"] == c["kind"] and
                v["case"].get("n_possible") == c.get("n_possible")]
+    elif c["kind"] == "history":
+        run_history((spec_from_json(c["first"]), spec_from_json(c["second"]),
+                     c["variant"], (c["n_possible"], c["n_online"])), res)
+        out = [v for v in res.violations
+               if (v["case"].get("opkind"), v["case"].get("who"),
+                   v["case"].get("phase")) ==
+               (c.get("opkind"), c.get("who"), c.get("phase"))]
     else:
         cfg = dict(key=tuple(c["key"]), value=tuple(c["value"]),
                    size=c["size"], lru=c["lru"])
